@@ -268,9 +268,29 @@ func (s *Scheduler) Go(name string, fn func(w *Worker)) *Worker {
 // Workers returns the registered workers.
 func (s *Scheduler) Workers() []*Worker { return s.workers }
 
+// spinLabels: engine yield points inside a wait loop -> the label of the step the loop waits for.
+var spinLabels = map[string]string{"wm.begin.awaitAdvance": "wm.advance.beforeCAS"}
+
 // Yield is the engine hook: parks the calling goroutine if it is a registered
 // worker (and the filters agree); returns immediately otherwise.
 func (s *Scheduler) Yield(label string) {
+	if bl, ok := spinLabels[label]; ok {
+		// The engine spins here until a step another worker is in the middle of has been
+		// taken.  Under a cooperative schedule that worker may be parked: wait for it
+		// instead of spinning (a plain park could be re-chosen forever).
+		if v, ok := s.byGID.Load(goid()); ok {
+			w := v.(*Worker)
+			w.park(label, func() bool {
+				for _, o := range s.workers {
+					if o != w && o.state != stFinished && o.label == bl {
+						return false
+					}
+				}
+				return true
+			})
+		}
+		return
+	}
 	if s.cfg.Filter != nil && !s.cfg.Filter(label) {
 		return
 	}
